@@ -9,6 +9,10 @@ REG = {
    text="Theorem C01_postcondition (coq/Properties/C01.v) over Model/Engine.v -- a Gallina model of SyncEngine::sync (plan, deletion plan, mass-deletion guard, sequential task execution, error budget), StrategyPlanner and the local transfer paths for regular files and directories: for every well-formed filtered source listing, prior destination, comparison mode and --delete setting, a run that is not refused and reports no error leaves every selected entry present with its kind, every file that was absent or differed byte-identical (content identity) with the source's size and mtime -- except the explicitly carried disjunct for updates over a destination >= the delta gate (mtime = time of the run), which is refuted as a theorem (C01_refuted_big_update_mtime = known finding C01-KF1). Tie: generated worlds through the real binary (-j1 --json, hook-scaled gate) compared with the extracted Engine.run on refusal, exit status, error count, event sequence and final destination snapshot; statement-level oracle on the implementation's snapshots.",
    note="Partial: symbolic links, hard links and xattrs are outside Engine.v (C17/C13); byte-level equality of each transfer path rests on content identity (Delta/Sparse models give the byte-level lemmas for the delta/sparse codecs); single-file mode and -j>1 are exercised by runs only. Hook H1 scales the 10 MiB gate.",
    technique="Rocq proof (frame lemmas + induction over the task list) + binary-level differential correspondence"),
+ "C02": dict(
+   text="coq/Properties/C02.v: in Model/Engine.v the source is immutable input and every write lands on a destination path; the only channel out of the destination root is a symbolic link inside the destination, and Model/Links.v (the repaired planner/update path for symlink entries) proves that no step of any link mode over any destination entry -- for every history of runs -- writes through a destination link; dry-run and refused runs leave even the destination untouched. Tie: link histories (relative, absolute into the source, absolute into a sentinel outside both roots, dangling, directory-targeting incl. absolute, chained) x modes x prior entries x 2-3 runs with --delete / --dry-run / --verify-only on later runs through the real binary, with recursive snapshots of the source and of the sentinel before/after every run.",
+   note="Partial: 'the source is never written' is a structural property of the model (no source state) and is validated on the implementation by snapshots; hard links between source and destination and cache files beside the source are covered by the snapshots only.",
+   technique="Rocq proof (case analysis of the link state machine, history induction) + snapshot-based runs of the real binary"),
  "C03": dict(
    text="coq/Properties/C03.v: every transfer path that restores the source mtime leaves an entry the next plan skips (all modes except --ignore-times); after a successful run the re-run plans Skip for every selected entry outside the known class (C03_rerun_plans_skip); the block-delta paths are refuted as a theorem (C03_refuted_big_update = known finding C03-KF1). Tie: every C01 world is run twice through the real binary and both runs are compared with the model; oracle: second run reports only skips and leaves content, mtime and inode of every destination entry unchanged.",
    note="Partial: links/hard links are C17/C13; the remote half (ssh.rs) cannot be executed (no sshd). Same trusted base as C01.",
@@ -49,6 +53,10 @@ REG = {
    text="coq/Properties/C10.v over Model/Engine.v (with the repaired exit mapping of main.rs): whenever a planned operation did not complete the exit status is non-zero, for every error budget; exit status 0 implies the C01 postcondition (for destinations without unseen type conflicts); a failing task leaves the destination exactly as it was (containment); the two type-conflict shapes the planner does not see are refuted as theorems (C10_refuted_type_conflict_skip, C10_refuted_dir_stat_skip = known finding C10-KF1). Tie: C01 worlds with natural faults (directory where the source has a file -> EISDIR, file where the source has a directory with children -> ENOTDIR for every descendant) x error budgets through the real binary vs Engine.run; oracle: failure visible, unaffected files correct, exit 0 implies C01.",
    note="Partial: only natural faults are injected in the registered quick check (EIO/ENOSPC/EACCES injection at the k-th system call needs the LD_PRELOAD shim; the sandbox runs as root so permission faults cannot arise naturally); verification failures (silent corruption under verifying modes) are not modelled.",
    technique="Rocq proof (exit-status case analysis + corollary of the C01 invariant, refutation witnesses) + binary-level differential correspondence under faults"),
+ "C17": dict(
+   text="coq/Properties/C17.v over Model/Links.v (plan/create/update of a symlink entry against the destination entry kinds, following the repaired code): preserve mode -- after any number of re-syncs with arbitrary retargeting in between, from any prior non-directory entry, the destination is a symlink with exactly the source link's current target text (induction over the history); follow mode -- the linked file's content becomes a regular file over any prior non-directory entry (links replaced, not written through); skip mode -- nothing is created for any history; follow-mode resolution of relative targets against the working directory is refuted as a theorem (C17_follow_relative_refuted = known finding C17-KF1). Tie: link-kind x mode x prior-entry x 1-3-run histories through the real binary vs Links.sync_link (readlink / kind after every run), user xattrs with and without -X checked on the files.",
+   note="Partial: extended attributes have no Gallina model (copy_file strips, write_xattrs re-applies): validated by runs only; chained/directory-targeting links are compared by target text only.",
+   technique="Rocq proof (state-machine case analysis + induction over re-sync histories) + binary-level differential correspondence"),
  "C11": dict(
    text="Theorems in coq/Properties/C11.v over a Gallina model of classifier.rs/resolver.rs/engine.rs/state.rs: for every pair of trees, every strategy, the first sync converges on every path outside the known class (equal size, different content) and loses no version except the loser a non-rename strategy names; the full statement is refuted by a vm_compute witness (C11_refuted_same_size = known finding C11-KF1). Tie: classify_changes/resolve_changes compared with the extracted model exhaustively over an ordered (size,mtime) domain, BisyncEngine::sync compared on edit/sync histories over real directories incl. state-DB rows; specification oracle (convergence, no silent loss) evaluated on the implementation's snapshots; failures count as known only inside a listed class and only while the implementation still equals the model of the pinned code.",
    note="Partial: convergence is proved for first syncs (empty state); with prior state the recorded rows are partial/stale (known findings C11-KF2, C12-KF1/KF2) and the statement is false. SQLite and fs::copy/rename are oracles.",
